@@ -1622,6 +1622,16 @@ class Evaluator:
             if f is not None:
                 return self.call(f, [a, b], {}, 3)
         if isinstance(op, (ast.BitAnd, ast.BitOr, ast.BitXor)):
+            def _int01(x):
+                if isinstance(x, Const) and isinstance(x.v, bool):
+                    return int(x.v)
+                if isinstance(x, sp.Integer):
+                    return int(x)
+                return None
+            ia, ib = _int01(a), _int01(b)
+            if ia is not None and ib is not None and (isinstance(a, sp.Integer) or isinstance(b, sp.Integer)):
+                # int ^ bool, int & int, ...: Python integer arithmetic (the result is an int)
+                return sp.Integer({ast.BitAnd: ia & ib, ast.BitOr: ia | ib, ast.BitXor: ia ^ ib}[type(op)])
             if isinstance(a, (Cmp, BoolT, Const, Ite)) and isinstance(b, (Cmp, BoolT, Const, Ite)):
                 return BoolT({ast.BitAnd: 'and', ast.BitOr: 'or', ast.BitXor: 'xor'}[type(op)], (a, b))
             return App({ast.BitAnd: 'bitand', ast.BitOr: 'bitor', ast.BitXor: 'bitxor'}[type(op)], (a, b))
@@ -2182,6 +2192,9 @@ class Evaluator:
                 return a[0] * sp.pi / 180
             if short in ('rad2deg', 'degrees') and numeric and len(a) == 1:
                 return a[0] * 180 / sp.pi
+            if short in ('less', 'less_equal', 'greater', 'greater_equal') and len(a) == 2 and not kwargs \
+                    and all(is_num(x) for x in a):
+                return Cmp({'less': '<', 'less_equal': '<=', 'greater': '>', 'greater_equal': '>='}[short], a[0], a[1])
             if short in ('logical_not', 'invert') and len(a) == 1:
                 return mk_not(a[0]) if isinstance(a[0], (Cmp, BoolT, Const)) else BoolT('not', (a[0],))
             if short in ('logical_xor', 'logical_and', 'logical_or') and len(a) == 2:
